@@ -55,7 +55,9 @@ def inumbers(l, try_parse=False, text_is_zero=False):
     """ only the numbers """
     for el in iflatten(l):
         if isinstance(el, error.XLError):
-            raise el
+            # the shared error of that code, not the item itself: raising an error object the
+            # host put into its list would hang a traceback onto the host's own data
+            raise error.from_message(el)
         if try_parse:
             el = to_number(el)
         if isinstance(el, number_types):
